@@ -142,7 +142,11 @@ pub fn prim_upgrade(wk: &Weak<Node>, target: Option<Oid>, top_level: bool) -> Op
                     let why = if dropped { "dropped" } else if moved { "moved-out" } else if uninit { "uninitialised" } else { "gone" };
                     let sig = format!("upgrade-some-on-dead/{}/{}", why, fk_str(ctx, top_level));
                     let d = format!("upgrade returned Some for {} obj{}", why, t);
-                    w.violation(&["C08", "C01"], "upgrade-some-on-dead", sig, d, false);
+                    if moved {
+                        w.violation(&["C08", "C13", "C01"], "upgrade-some-on-dead", sig, d, false);
+                    } else {
+                        w.violation(&["C08", "C01"], "upgrade-some-on-dead", sig, d, false);
+                    }
                 } else if snap.box_addr != o.box_addr {
                     w.violation(&["C08"], "upgrade-wrong-allocation", "upgrade-wrong-allocation".into(), format!("upgrade of weak to obj{} returned another allocation", t), false);
                 }
